@@ -10,7 +10,9 @@ META = dict(
                 "ValidatingBlockstore, in real files under FileManager/Filestore/Verify (std and mmap readers) and in "
                 "httptest resources for URL references, at every byte position of 3/16/256-byte blocks and sampled positions "
                 "of 256 KiB blocks, and every Get result is compared with the spec's; random 40-60 step fault/Get histories "
-                "of the real code are validated as behaviours of the spec."),
+                "of the real code are validated as behaviours of the spec.  Every block a Get returned is kept by the harness "
+                "(spec variable handed, invariant RetainedGenuine) and re-hashed after every later fault and Get -- of the same "
+                "or another reference, through the other read APIs, concurrent Gets, later runs -- it must stay genuine."),
     level_note=("Trusted: hash collision freeness on the generated universe (originals and foreign bytes differ by XOR patterns no "
                 "fault mask bridges); the model-byte -> byte-segment embedding and the independent sha2 re-hash in the harness; "
                 "go-datastore MapDatastore; os file API; net/http on loopback.  Status of a replaced-by-directory file, of a "
@@ -26,8 +28,9 @@ def run(ctx):
     ctx.cov["rule"] = ("G: all fault sequences of length D (Flip x mask, Truncate, Extend, Remove, MakeDir, Restore, Swap) per "
                        "configuration (kind x layout P/N/S/R x hash flavour | reader | server mode), each expanded to every "
                        "interior split position m of 3/16/256-byte blocks (vbs, files) and sampled positions of 256 KiB blocks; "
-                       "after every fault every reference is read through every read API and compared with GetResults. "
-                       "T: random histories validated by TraceVerifiedRead. non-trivial = behaviour in which some reference's "
+                       "after every fault every reference is read through every read API and compared with GetResults; every "
+                       "block returned is kept and re-examined after every later fault/Get against the spec's `held` set. "
+                       "T: random histories (single and concurrent Gets, Recheck of kept blocks also of earlier runs) validated by TraceVerifiedRead. non-trivial = behaviour in which some reference's "
                        "expected result changes at least twice (corrupted and repaired, or corrupted in two different ways)")
     spec = "VerifiedRead"
     # M
